@@ -169,6 +169,8 @@ class World(BaseWorld):
             log_trick = True
         mode = rng.choice(["none", "none", "lo", "hi", "both", "both"])
         d1, d2 = rng.choice([0, 0, 1, 2]), rng.choice([0, 0, 1, 2])
+        if log_trick and rng.random() < 0.15:
+            d1, d2 = rng.choice([0, 5, 11]), rng.choice([0, 6, 13])      # valid but loose enclosures
         if c.get("half_bounds") and rng.random() < 0.3:
             d1, d2 = d1 + 0.5, d2 + 0.5
         if not log_trick and (hi + d2) - (lo - d1) > 6:
@@ -742,7 +744,7 @@ def gen_cfg(rng, prop, tier):
     kind = BOOL if prop == "C02" else SPIN if prop == "C03" else rng.choice([BOOL, BOOL, SPIN])
     cfg = {
         "kind": kind, "labels": labels, "alphabet": [enc_label(l) for l in alpha],
-        "obj_vars": rng.choice([2, 3, 4]), "obj_deg": rng.choice([1, 2, 2, 3]), "obj_coefs": rng.choice([[-1, 1], [-2, -1, 1, 2], [-3, -1, 1, 2]]),
+        "obj_vars": rng.choice([2, 3, 4]), "obj_deg": rng.choice([1, 2, 2, 3]), "obj_coefs": rng.choice([[-1, 1], [-2, -1, 1, 2], [-3, -1, 1, 2], [-1.5, -0.5, 0.5, 1, 2.5]]),
         "cons_vars": rng.choice([2, 3, 4]), "cons_deg": rng.choice([1, 1, 2, 3]), "cons_coefs": rng.choice([[-1, 1], [-2, -1, 1, 2], [-3, -2, -1, 1, 2, 3]]),
         "lams": rng.choice([[1], [0.5, 1, 1.5, 2, 3, 4], [2, 4], [0.5]]),
         "p_special": rng.choice([0.0, 0.3, 0.6]), "p_skewed": rng.choice([0.0, 0.2, 0.5]), "p_model_arg": rng.choice([0.0, 0.3, 0.6]),
